@@ -17,34 +17,50 @@ theorem persist_eq (nkr : Keyring) (ak : Key) (hroot : nkr.root.aesOK = true) (h
     (hok : ak.aesOK = true) : persist nkr = (persistWs nkr ak, .ok) := by
   simp [persist, persistWs, hroot, hak, hok]
 
+/-- the writes of `persistKeyring nkr` on a barrier with `ns`: no legacy delete on a namespace barrier -/
+def persistWsNs (ns : Bool) (nkr : Keyring) (ak : Key) : List PWrite :=
+  .put .keyring (.enc 1 nkr.root .keyring (.keyring nkr)) ::
+   .put .rootKey (.enc nkr.active ak .rootKey (.val (.keyrec 1 nkr.root))) :: legacyDel ns
+
+theorem persistWsNs_false (nkr : Keyring) (ak : Key) : persistWsNs false nkr ak = persistWs nkr ak := rfl
+
+theorem persistNs_ok (ns : Bool) (nkr : Keyring) (ak : Key) (hroot : nkr.root.aesOK = true)
+    (hak : nkr.termKey nkr.active = some ak) (hok : ak.aesOK = true) :
+    persistNs ns nkr = (persistWsNs ns nkr ak, .ok) := by
+  simp [persistNs_eq, persistWsNs, hroot, hak, hok]
+
+theorem legacyDel_take_succ (ns : Bool) (n : Nat) : (legacyDel ns).take (n + 1) = legacyDel ns := by
+  cases ns <;> simp [legacyDel]
+
 /-- Consistency after EVERY prefix of the writes of `persistKeyring nkr`, when `nkr` extends the stored keyring:
 before the first write the old root key opens the store, after it the root key of `nkr` does; after the first
 write and before the second the root-key entry still names the OLD root key. -/
-theorem persist_prefix {p sh rk KR} (h : PInv p sh rk KR) (hc : Coherent p rk KR) (nkr : Keyring) (ak : Key)
+theorem persist_prefix {p sh rk KR} (ns : Bool) (h : PInv p sh rk KR) (hc : Coherent p rk KR) (nkr : Keyring) (ak : Key)
     (hsub : KR.Sub nkr) (hwf : nkr.WF) (hroot : nkr.root.aesOK = true) (hak : nkr.termKey nkr.active = some ak) (k : Nat) :
-    let p' := applyWrites p ((persistWs nkr ak).take k)
+    let p' := applyWrites p ((persistWsNs ns nkr ak).take k)
     (k = 0 → PInv p' sh rk KR ∧ RootIs p' rk) ∧
     (k = 1 → PInv p' sh nkr.root nkr ∧ RootIs p' rk) ∧
     (2 ≤ k → PInv p' sh nkr.root nkr ∧ Coherent p' nkr.root nkr) := by
   have h1 := h.put_keyring nkr.root nkr hsub rfl hroot hwf
   have h2 := h1.put_meta .rootKey nkr.active ak (.val (.keyrec 1 nkr.root)) (by simp) (by simp) hak
     (fun _ => ⟨_, rfl⟩) (by intro u hu; cases hu)
-  have h3 := h2.del_meta .legacy (by simp) (by simp) (by simp)
+  have h3 := h2.legTail ns
   refine ⟨?_, ?_, ?_⟩
-  · intro hk; subst hk; simp [persistWs, applyWrites]; exact ⟨h, hc.rootIs⟩
+  · intro hk; subst hk; simp [persistWsNs, applyWrites]; exact ⟨h, hc.rootIs⟩
   · intro hk; subst hk
-    simp [persistWs, applyWrites, applyWrite]
+    simp [persistWsNs, applyWrites, applyWrite]
     refine ⟨h1, ?_⟩
     obtain ⟨t, ak0, hr⟩ := hc.rootIs
     exact ⟨t, ak0, by rw [get_put_other _ _ _ _ (by simp)]; exact hr⟩
   · intro hk
     match k, hk with
     | 2, _ =>
-      simp [persistWs, applyWrites, applyWrite]
+      simp [persistWsNs, applyWrites, applyWrite]
       exact ⟨h2, ak, hak, get_put_same _ _ _⟩
     | (n + 3), _ =>
-      simp [persistWs, applyWrites, applyWrite]
-      exact ⟨h3, ak, hak, by rw [get_del_other _ _ _ (by simp), get_put_same]⟩
+      simp only [persistWsNs, List.take_succ_cons, legacyDel_take_succ, applyWrites, List.foldl_cons,
+        foldl_legacyDel, applyWrite]
+      exact ⟨h3, ak, hak, by rw [get_legTail_other _ _ _ (by simp), get_put_same]⟩
 
 /-! ### the upgrade walk -/
 
@@ -266,16 +282,16 @@ theorem rotate_prefix (hfk : fk.aesOK = true) (k : Nat) :
       rw [← termKey_congr hk] at hk0
       exact sub_next kr krwf fk t k0 hk0
     by_cases hroot : kr.root.aesOK = true
-    · have hw : (step ns p b fk .rotate).writes = persistWs nkr fk := by
-        simp [step, hs, hkr, addKey_next kr krwf fk, persist_eq nkr fk hroot hact hfk, nkr]
+    · have hw : (step ns p b fk .rotate).writes = persistWsNs ns nkr fk := by
+        simp [step, hs, hkr, addKey_next kr krwf fk, persistNs_ok ns nkr fk hroot hact hfk, nkr]
       rw [hw]
-      obtain ⟨c0, c1, c2⟩ := persist_prefix h hc nkr fk hsubK (wf_next kr krwf fk hfk) hroot hact k
+      obtain ⟨c0, c1, c2⟩ := persist_prefix ns h hc nkr fk hsubK (wf_next kr krwf fk hfk) hroot hact k
       match k with
       | 0 => exact ⟨rk, KR, hrk, (c0 rfl).1, fun _ => (c0 rfl).2⟩
       | 1 => exact ⟨kr.root, nkr, h4, (c1 rfl).1, fun hr => by rw [hr kr hkr]; exact (c1 rfl).2⟩
       | (n + 2) => exact ⟨kr.root, nkr, h4, (c2 (by omega)).1, fun _ => (c2 (by omega)).2.rootIs⟩
     · have hw : (step ns p b fk .rotate).writes = [] := by
-        simp [step, hs, hkr, addKey_next kr krwf fk, persist, hroot]
+        simp [step, hs, hkr, addKey_next kr krwf fk, persistNs_eq, hroot]
       rw [hw]; simp only [List.take_nil, applyWrites, List.foldl_nil]; exact same
 
 /-- every crash prefix of `RotateRootKey nk` on the active node: consistent under the old root key before the first
@@ -305,20 +321,20 @@ theorem rotroot_prefix (nk : Key) (k : Nat) :
       have wf' : nkr.WF := WF_congr rfl rfl krwf
       have hak' : nkr.termKey nkr.active = some ak := hak
       by_cases hroot : nk.aesOK = true
-      · have hw : (step ns p b fk (.rotroot nk)).writes = persistWs nkr ak := by
-          simp [step, hs, hsz, hkr, persist_eq nkr ak hroot hak' hakok, nkr]
+      · have hw : (step ns p b fk (.rotroot nk)).writes = persistWsNs ns nkr ak := by
+          simp [step, hs, hsz, hkr, persistNs_ok ns nkr ak hroot hak' hakok, nkr]
         have hr : (step ns p b fk (.rotroot nk)).res = .ok := by
-          simp [step, hs, hsz, hkr, persist_eq nkr ak hroot hak' hakok, nkr]
+          simp [step, hs, hsz, hkr, persistNs_ok ns nkr ak hroot hak' hakok, nkr]
         rw [hw, hr]
-        obtain ⟨c0, c1, c2⟩ := persist_prefix h hc nkr ak hsubK wf' hroot hak' k
+        obtain ⟨c0, c1, c2⟩ := persist_prefix ns h hc nkr ak hsubK wf' hroot hak' k
         match k with
         | 0 => exact ⟨rk, KR, Or.inl rfl, (c0 rfl).1, fun _ => (c0 rfl).2, fun hh => by cases hh⟩
         | 1 => exact ⟨nk, nkr, Or.inr rfl, (c1 rfl).1, fun hh => absurd rfl hh, fun _ _ => ⟨rfl, (c1 rfl).2⟩⟩
         | (n + 2) => exact ⟨nk, nkr, Or.inr rfl, (c2 (by omega)).1, fun _ => (c2 (by omega)).2.rootIs, fun hh => by omega⟩
       · have hw : (step ns p b fk (.rotroot nk)).writes = [] := by
-          simp [step, hs, hsz, hkr, persist, hroot]
+          simp [step, hs, hsz, hkr, persistNs_eq, hroot]
         have hr : (step ns p b fk (.rotroot nk)).res = .cipher := by
-          simp [step, hs, hsz, hkr, persist, hroot]
+          simp [step, hs, hsz, hkr, persistNs_eq, hroot]
         rw [hw, hr]; simp only [List.take_nil, applyWrites, List.foldl_nil]; exact same _ (by simp)
     · have hw : (step ns p b fk (.rotroot nk)).writes = [] := by simp [step, hs, hsz]
       have hr : (step ns p b fk (.rotroot nk)).res = .keySize := by simp [step, hs, hsz]
